@@ -828,6 +828,12 @@ func runHistory(w *W, nops int, histIndex int) {
 		if i == 2 && histIndex%3 == 0 {
 			h.directedOrdered(histIndex / 3)
 		}
+		if i == 6 && histIndex%3 == 1 {
+			h.directedTimeout2(histIndex / 3)
+		}
+		if i == 6 && histIndex%3 == 2 {
+			h.directedStaleTimeout1(histIndex / 3)
+		}
 		if r.Chance(1, 7) {
 			h.lhOp()
 			continue
@@ -1115,6 +1121,80 @@ var v2Vectors = [][]string{
 	{"d-async", "d-ok1"}, {"d-ok1", "d-async"}, {"d-async", "d-ok2", "d-raw"}, {"d-err", "d-ok1"}, {"d-ok1", "d-err"},
 	{"d-ok1", "d-ok2", "d-sent"}, {"d-sent", "d-ok1"}, {"d-ok1", "d-raw", "d-ok2", "d-ok1"}, {"d-cbfail", "d-ok1"},
 	{"d-ok2", "d-err0", "d-async"}, {"d-async"}, {"d-err"}, {"d-emptyack", "d-ok1"},
+}
+
+// directedTimeout2: a single-payload v2 packet (over the channel alias or over the v2 client) whose timeout is a few
+// seconds ahead; time passes on both chains, the timeout is relayed honestly, then relayed AGAIN, then a late receive is
+// attempted: one terminal outcome only (C03), the commitment is gone after the first timeout, nothing is received (C04).
+func (h *hist) directedTimeout2(idx int) {
+	w := h.w
+	src := idx % 2
+	alias := (idx/2)%2 == 0
+	var id, cp string
+	if alias {
+		id, cp = w.ep(w.pU, src).ChannelID, w.ep(w.pU, 1-src).ChannelID
+	} else {
+		id, cp = w.ep(w.pV, src).ClientID, w.ep(w.pV, 1-src).ClientID
+	}
+	_, t := w.begin(src)
+	tt := t/1e9 + 6
+	y := channeltypesv2.NewPayload(mockv2.PortIDA, mockv2.PortIDB, "v1", "json", []byte("d-ok1"))
+	pays := []channeltypesv2.Payload{y}
+	pd := []any{w.paydesc(y)}
+	w.p2desc(channeltypesv2.NewPacket(1, id, cp, tt, pays...))
+	msg := channeltypesv2.NewMsgSendPacket(id, tt, w.ch[src].SenderAccount.GetAddress().String(), pays...)
+	out, res := w.tx(src, map[string]any{"k": "send2", "src": w.ids.id(id), "tt": hx.U(tt), "pay": pd, "signer": 7}, nil, msg)
+	if out != "ok" {
+		return
+	}
+	seq := sendSeq(res)
+	q := channeltypesv2.NewPacket(seq, id, cp, tt, pays...)
+	w.p2desc(q)
+	k := &pkt2{src: src, q: q, alias: alias}
+	h.p2 = append(h.p2, k)
+	if seq > w.maxSeq {
+		w.maxSeq = seq
+	}
+	w.steps[len(w.steps)-1]["ret_seq"] = hx.U(seq)
+	w.coord.IncrementTimeBy(30 * time.Second)
+	w.emptyBlock(1 - src)
+	w.emptyBlock(src)
+	h.timeout2(k, false)
+	h.timeout2(k, false)
+	h.recv2(k, false)
+}
+
+// directedStaleTimeout1: a v1 UNORDERED packet with a timestamp timeout; the source's client learns a destination height
+// H1 at which the timeout has not passed and the packet is not yet received; the destination then receives the packet
+// in time; later its clock passes the timeout and the client is updated again; MsgTimeout with the (true) absence proof
+// of the stale version H1 must be refused, because the timeout had not elapsed at the proof height (C04).
+func (h *hist) directedStaleTimeout1(idx int) {
+	w := h.w
+	src := idx % 2
+	dst := 1 - src
+	e := w.ep(w.pU, src)
+	_, dt := w.begin(dst)
+	tt := dt + uint64(40*time.Second)
+	k := h.send1With(src, false, e, e.ChannelConfig.PortID, e.ChannelID, clienttypes.ZeroHeight(), tt, []byte("d-ok1"))
+	if k == nil {
+		return
+	}
+	w.emptyBlock(dst)
+	w.updateClient(src, h.clientV1(src))
+	staleVersion := int64(w.latestCons(src, h.clientV1(src))) - 1
+	stalePH := clienttypes.NewHeight(clienttypes.ParseChainID(w.ch[dst].ChainID), uint64(staleVersion+1))
+	h.recv1(k, false)
+	w.coord.IncrementTimeBy(90 * time.Second)
+	w.emptyBlock(dst)
+	w.emptyBlock(src)
+	w.updateClient(src, h.clientV1(src))
+	p := k.p
+	proof, pd := w.proofOf(dst, w.kRcpt1(p.DestinationPort, p.DestinationChannel, p.Sequence), staleVersion)
+	msg := channeltypes.NewMsgTimeout(p, 1, proof, stalePH, w.signer(src))
+	op := map[string]any{"k": "timeout1", "p": w.p1desc(p), "ph": hj(stalePH), "nsr": hx.U(1), "proof": pd, "relayer": 7}
+	if out, _ := w.tx(src, op, respIsNoop, msg); out == "ok" {
+		k.done = true
+	}
 }
 
 func (h *hist) directedV2(idx int) {
